@@ -127,7 +127,7 @@ Definition loop_body (st : store) (labels : list L) (mp : option Z) (s : loopst)
   : option string * loopst :=
   let '(label, snap) := t in
   match find_idx label labels with
-  | None => (Some "KeyError", s)
+  | None => (Some "KeyError"%string, s)
   | Some idx =>
       (* if max_persist_active: self._last_accessed[label] = self._last_accessed.pop(label, None) *)
       let la1 := match mp with Some _ => la_touch label (ls_la s) | None => ls_la s end in
@@ -157,10 +157,10 @@ Definition loop_body (st : store) (labels : list L) (mp : option Z) (s : loopst)
           | Some k =>
               if count2 >? k then
                 match la1 with
-                | [] => (Some "StopIteration", mk_loopst array2 loaded2 la1 count2 pending)
+                | [] => (Some "StopIteration"%string, mk_loopst array2 loaded2 la1 count2 pending)
                 | lr :: la3 =>
                     match find_idx lr labels with
-                    | None => (Some "KeyError", mk_loopst array2 loaded2 la3 count2 pending)
+                    | None => (Some "KeyError"%string, mk_loopst array2 loaded2 la3 count2 pending)
                     | Some ir =>
                         (None, mk_loopst (set_nth ir None array2) (set_nth ir false loaded2) la3 (count2 - 1) pending)
                     end
